@@ -697,6 +697,11 @@ impl Kid {
     }
 }
 
+/// SIGSTOP / SIGCONT a worker (scheduling control: while one waiter is meant to get the lock, the others do not run).
+fn signal(pid: u32, sig: &str) {
+    let _ = Command::new("kill").arg(format!("-{sig}")).arg(pid.to_string()).stdin(Stdio::null()).stdout(Stdio::null()).stderr(Stdio::null()).status();
+}
+
 struct Ctl {
     kids: Vec<Kid>,
     counter: u64,
@@ -784,11 +789,18 @@ impl Ctl {
             }
             // a worker still blocked in acquire is needed for something else: operator removes the lock file
             if self.kids[p - 1].pending && name_op != "granted" && name_op != "crash" {
+                let others: Vec<u32> = self.kids.iter().enumerate().filter(|(i, k)| *i != p - 1 && k.pending && !k.dead).map(|(_, k)| k.pid).collect();
+                for &q in &others {
+                    signal(q, "STOP");
+                }
                 let removed = remove_locks(&dir);
                 seq += 1;
                 out.ev(&json!({"p": 0, "op": "unstick", "i": seq, "res": {"r": "ok", "removed": removed}, "obs": observe(&name)}));
                 self.holder = None;
                 let res = self.late_answer(p);
+                for &q in &others {
+                    signal(q, "CONT");
+                }
                 if res["r"] == "ok" {
                     self.holder = Some(p);
                 }
@@ -828,10 +840,23 @@ impl Ctl {
 
     fn late_answer(&mut self, p: usize) -> Value {
         let holder_dead = self.holder.is_some_and(|h| self.kids[h - 1].dead);
-        let k = &mut self.kids[p - 1];
-        if !k.pending {
+        if !self.kids[p - 1].pending {
             return json!({"r": "notpending"});
         }
+        // the schedule says WHICH waiter proceeds: the other blocked workers are not scheduled meanwhile
+        let others: Vec<u32> = self.kids.iter().enumerate().filter(|(i, k)| *i != p - 1 && k.pending && !k.dead).map(|(_, k)| k.pid).collect();
+        for &q in &others {
+            signal(q, "STOP");
+        }
+        let r = self.late_answer_of(p, holder_dead);
+        for &q in &others {
+            signal(q, "CONT");
+        }
+        r
+    }
+
+    fn late_answer_of(&mut self, p: usize, holder_dead: bool) -> Value {
+        let k = &mut self.kids[p - 1];
         // a waiter polls every 50 ms: when the holder is known to be dead, 2 s (40 periods) of silence is recorded as
         // "timeout"; otherwise (the holder released) the answer must come, the bound is a hang detector
         let wait = if holder_dead { Duration::from_secs(2) } else { Duration::from_secs(20) };
@@ -897,8 +922,11 @@ fn main() {
     let programs = arg(&args, "--programs").map(|p| read_programs(&p)).unwrap_or_default();
     let mut ctl = Ctl { kids: vec![], counter: 0, spawns: 0, hangs: 0, holder: None };
     let mut n = 0u64;
+    let mut per_fam: std::collections::BTreeMap<String, u64> = Default::default();
     for prog in &programs {
+        let t0 = Instant::now();
         ctl.run_program(prog, &mut out);
+        *per_fam.entry(format!("ms_{}", prog["fam"].as_str().unwrap_or("x"))).or_default() += t0.elapsed().as_micros() as u64;
         n += 1;
     }
     for k in &mut ctl.kids {
@@ -907,5 +935,9 @@ fn main() {
         }
     }
     out.flush();
-    eprintln!("{}", json!({"programs": n, "events": out.events, "hangs": ctl.hangs, "spawns": ctl.spawns}));
+    let mut summary = json!({"programs": n, "events": out.events, "hangs": ctl.hangs, "spawns": ctl.spawns});
+    for (k, v) in per_fam {
+        summary[k] = json!(v / 1000);
+    }
+    eprintln!("{summary}");
 }
